@@ -108,19 +108,22 @@ func (c *vsCase) specValid(k int) (bool, string, string) {
 	case isP2WPKHs(spk):
 		algo, code = 1, p2pkhScript(spk[2:])
 	case isP2WSHs(spk):
-		if in.witscript == nil || !bytes.Equal(sha256b(in.witscript), spk[2:]) {
+		if !bytes.Equal(sha256b(in.witscript), spk[2:]) { // a nil witness script is the empty script
 			return false, "witness-script", "not-committed-by-spent-script"
 		}
 		algo, code = 1, in.witscript
+	case isP2SHs(spk) && in.redeem == nil:
+		// no redeem script supplied: the property's "script of the output" is the P2SH script itself
+		algo, code = 0, spk
 	case isP2SHs(spk):
-		if in.redeem == nil || !bytes.Equal(payment.Hash160(in.redeem), spk[2:22]) {
+		if !bytes.Equal(payment.Hash160(in.redeem), spk[2:22]) {
 			return false, "redeem-script", "not-committed-by-spent-script"
 		}
 		switch {
 		case isP2WPKHs(in.redeem):
 			algo, code = 1, p2pkhScript(in.redeem[2:])
 		case isP2WSHs(in.redeem):
-			if in.witscript == nil || !bytes.Equal(sha256b(in.witscript), in.redeem[2:]) {
+			if !bytes.Equal(sha256b(in.witscript), in.redeem[2:]) {
 				return false, "witness-script", "not-committed-by-redeem-script"
 			}
 			algo, code = 1, in.witscript
@@ -154,7 +157,11 @@ func (c *vsCase) specValid(k int) (bool, string, string) {
 			}
 			if algo == 1 && in.wit != nil && !bytes.Equal(in.wit.Value, spent.Value) {
 				if d2, ok2 := vsDigest(stx, algo, k, code, in.wit.Value, ht); ok2 && psig.Verify(d2, pk) {
-					return false, "amount", "witness-utxo-overrides-previous-output"
+					cls := "-p2wsh"
+					if isP2WPKHs(spk) || (isP2SHs(spk) && isP2WPKHs(in.redeem)) {
+						cls = "-p2wpkh"
+					}
+					return false, "amount", "witness-utxo-overrides-previous-output" + cls
 				}
 			}
 			return false, "sig", "not-valid-for-spent-output"
@@ -378,6 +385,38 @@ func checkC10Vs(t *Toks) string {
 			sg.pub = nk.pub
 			sg.sig = signDigest(nk, dg, ht)
 			return true
+		}); f != "" {
+			return f
+		}
+		// signed for another hash type than the byte it carries (e.g. the input's declared type)
+		if f := try("signed-for-other-hash-type", func(d *vsCase) bool {
+			sg := d.ins[k].sigs[j]
+			key := d.keyFor(sg.pub)
+			dg := c.signedDigest(k, j)
+			if key == nil || dg == nil {
+				return false
+			}
+			ht := sg.sig[len(sg.sig)-1]
+			decl := vsHashTypes[r.Intn(len(vsHashTypes))]
+			if decl == ht {
+				return false
+			}
+			d.ins[k].sighash = uint32(decl)
+			// re-sign over every candidate with the declared type, keep the carried byte
+			ok := false
+			scripts, amounts := d.candidates(k)
+			for _, sc := range scripts {
+				for _, am := range amounts {
+					for algo := 0; algo < 2; algo++ {
+						if dd, ok2 := vsDigest(c.sigTx(), algo, k, sc, am, ht); ok2 && bytes.Equal(dd, dg) {
+							d.resign(k, j, key, algo, sc, am, decl)
+							sg.sig[len(sg.sig)-1] = ht
+							ok = true
+						}
+					}
+				}
+			}
+			return ok
 		}); f != "" {
 			return f
 		}
